@@ -45,9 +45,29 @@ PROPS = {
                  "usage masks are symbolic in the matching bit and in 'all other bits' as one group"],
         assumptions=["representation invariant: stored state is one of PRE_ACTIVE, ACTIVE, DEACTIVATED, COMPROMISED"],
     ),
+    "C08": dict(
+        modules=["harness.c08"],
+        level="other",
+        explanation="Bounded symbolic execution of the real process_request/_process_batch loop with a stubbed "
+                    "_process_operation whose outcome per item is symbolic (batch size, ID presence, continuation "
+                    "option symbolic); of the real handlers for the intra-batch ID placeholder; and of each mutating "
+                    "handler over the stub store for the frame condition 'a failing item leaves no trace'.",
+        stubs=["FakeSession", "RecordingCrypto", "_process_operation stub (batch-loop conditions only)",
+               "NullLogger", "engine.time pinned"],
+        outside=["batches of more than 3 items", "stored lists longer than 2", "text values longer than 2 chars"],
+        assumptions=[],
+    ),
 }
 
 CLAIMS = {
+    "C08": dict(
+        text="Within the bounds (<=3 items; any mix of outcomes, ID presence, continuation option) every executed item "
+             "has exactly one result in order with its operation and ID echoed, processing stops at the first failure "
+             "unless CONTINUE, and no exception leaves process_request once an item ran; an ID-less item addresses the "
+             "object created earlier in the same batch; every failing mutating handler leaves all stored objects and "
+             "the store event log untouched.",
+        note="Stubbed _process_operation for the loop conditions; stub store; bounded sizes.",
+    ),
     "C04": dict(
         text="For each handler and stored object kind, from every storable state and mask configuration in the "
              "bounds, the post-state is an allowed successor, only Activate/Revoke/Destroy change state or "
